@@ -60,7 +60,8 @@ def _gen_thread(rw: Any, tid: int, cfg: Dict[str, Any], shape_seed: Optional[int
         ops.append({"op": "P", "id": p, "ast": p, "env": 0, "functions": fspec})
         for _ in range(rw.choice([1, 1, 2, 3, 4])):
             b = gen.gen_bindings(rw, decls, salt=tid + 1,
-                                 missing_share=rw.choice([0.0, 0.1, 0.3]))
+                                 missing_share=rw.choice([0.0, 0.1, 0.3]),
+                                 package_as_document=cfg["jq_mode"])
             ops.append({"op": "V", "prog": p, "bindings": b})
     return {"tid": tid, "ops": ops}
 
@@ -88,11 +89,15 @@ def generate(seed: int, tier: str = "quick") -> Dict[str, Any]:
         "host_share": rc.choice([0.0, 0.0, 0.3, 0.8]),
         "host_variants": rc.random() < 0.6,
         "shadow_size": rc.random() < 0.15,
+        # the CLI's configuration in every thread: a package whose name is bound to a document
+        "jq_mode": rc.random() < 0.08,
         "pre": rc.choice([None, None, "I", "C", "same"]),
         "deep_share": rc.choice([0.0, 0.0, 0.0, 0.3, 0.6]),
         # constructs featured in every thread's expressions of this workload (swarm testing)
         "features": rc.sample(sorted(gen.FEATURES), rc.choice([0, 0, 1, 1, 2])),
     }
+    if cfg["jq_mode"]:
+        cfg["same_env"] = {"runner": "C", "decls": "pkg", "package": "p"}
     shape_seed = kit.H(wseed, "shape") if (cfg["same_shape"] or cfg["same_text"]) else None
     threads = []
     for tid in range(n):
